@@ -4,6 +4,7 @@ import hh
 from hh import log
 import props as P
 import theorems as T
+import special  # registers PRE/SPECIAL hooks
 
 
 def fail_line(pid, path, nofail=False):
@@ -118,17 +119,27 @@ def spec_oracle(bs, reals, workdir, tag, cfgline):
     return fails
 
 
-def run_config(res, pid, tier, seed, config, binp, info, workdir, extra_cases=None, gen_override=None, cpu=None):
-    """returns dict(stats)"""
-    r = random.Random((seed * 1000003) ^ hash_str(config + (cpu or "")))
+def run_config(res, pid, tier, seed, config, binp, info, workdir, extra_cases=None, gen_override=None, cpu=None,
+               executor=None, label=None):
+    """generate cases for one configuration, execute them on the real code (native runner by default,
+    or `executor(cases, tag) -> (outs, crashed)`), on the Lean model, evaluate both verdict layers"""
+    label = label or config
+    r = random.Random((seed * 1000003) ^ hash_str(label + (cpu or "")))
     g = gen_override or P.PROPS[pid]["gen"]
     bs = list(extra_cases or []) + g(r, tier, info)
     cases = [b.case() for b in bs]
-    tag = f"{pid}.{config}" + (f".{cpu}" if cpu else "")
+    tag = f"{pid}.{label}" + (f".{cpu}" if cpu else "")
     cfgline = info["_line"]
-    extra = [f"--cpu={cpu}"] if cpu else []
-    reals, crashed = hh.run_real(binp, cases, workdir, tag, extra_args=extra)
+    if executor:
+        reals, crashed = executor(cases, tag)
+    else:
+        extra = [f"--cpu={cpu}"] if cpu else []
+        reals, crashed = hh.run_real(binp, cases, workdir, tag, extra_args=extra)
     models, mbad = hh.run_model(cases, workdir, tag, cfgline)
+    return evaluate(res, pid, label, cpu, cfgline, bs, cases, reals, models, crashed, mbad, info, workdir, tag, r)
+
+
+def evaluate(res, pid, config, cpu, cfgline, bs, cases, reals, models, crashed, mbad, info, workdir, tag, r):
     st = dict(config=config, cpu=cpu, cases=len(cases), ops=sum(len(c.ops) for c in cases),
               corr_fail=0, oracle_fail=0, crashed=len(crashed))
     oracle_fails = []
@@ -136,7 +147,8 @@ def run_config(res, pid, tier, seed, config, binp, info, workdir, extra_cases=No
     for k, c in enumerate(cases):
         ro = reals[k]
         if ro is None or len(ro) < len(c.ops):
-            oracle_fails.append((k, f"runner crashed/aborted inside this case (outputs: {0 if ro is None else len(ro)} of {len(c.ops)})"))
+            detail = (crashed[0][2][-600:] if crashed else "")
+            oracle_fails.append((k, f"runner crashed/aborted inside this case (outputs: {0 if ro is None else len(ro)} of {len(c.ops)}) {detail}"))
             continue
         if c.oracle:
             msg = c.oracle(ro)
@@ -147,14 +159,13 @@ def run_config(res, pid, tier, seed, config, binp, info, workdir, extra_cases=No
         d = hh.first_diff(ro, models[k])
         if d is not None:
             corr_fails.append((k, d))
-    if P.PROPS[pid].get("spec_oracle"):
+    if P.PROPS.get(pid, {}).get("spec_oracle"):
         oracle_fails += spec_oracle(bs, reals, workdir, tag, cfgline)
-    post = P.PROPS[pid].get("post")
+    post = P.PROPS.get(pid, {}).get("post")
     if post:
         oracle_fails += post(bs, cases, reals, info)
     st["oracle_fail"] = len(oracle_fails)
     st["corr_fail"] = len(corr_fails)
-    # record
     for k, msg in oracle_fails[:3]:
         res.replay(dict(kind="impl-violates-property", config=config, cpu=cpu, cfg=cfgline, message=msg,
                         ops=cases[k].ops, actual=reals[k], model=models[k]))
@@ -166,7 +177,6 @@ def run_config(res, pid, tier, seed, config, binp, info, workdir, extra_cases=No
         res.corr_pending.append(dict(kind="correspondence-broken", stream="model driver failed", detail=str(mbad)[:500]))
     res.n_oracle_fail += len(oracle_fails)
     res.n_corr_fail += len(corr_fails)
-    # coverage accounting
     for c in cases:
         res.keys.add(c.key())
         if c.nontrivial():
@@ -178,8 +188,9 @@ def run_config(res, pid, tier, seed, config, binp, info, workdir, extra_cases=No
     res.validated += sum(1 for k in range(len(cases)) if reals[k] is not None and models[k] is not None
                          and hh.first_diff(reals[k], models[k]) is None)
     if len(res.samples) < 3 and cases:
-        c = cases[r.randrange(len(cases))]
-        res.samples.append(dict(config=config, ops=[o[:200] for o in c.ops[:12]], outputs=(reals[cases.index(c)] or [])[:12]))
+        i = r.randrange(len(cases))
+        c = cases[i]
+        res.samples.append(dict(config=config, ops=[o[:200] for o in c.ops[:12]], outputs=[o[:200] for o in (reals[i] or [])[:12]]))
     return st
 
 
@@ -207,6 +218,9 @@ def main(argv):
         return do_replay(pid, replay)
     workdir = os.path.join(hh.BUILD, "work", pid)
     os.makedirs(workdir, exist_ok=True)
+    pre = T.PRE.get(pid)
+    if pre:
+        pre(res)
     proofs_ok = stage_lean(res, pid, tier == "thorough")
     configs_stats = []
     if pid in P.PROPS:
